@@ -258,6 +258,49 @@ fn one_spawn(v: &Value, files: &mut Files, out: &mut Vec<String>, idx: usize) {
     let _ = child_pids;
 }
 
+/// C08's consequence, observed directly: a command A waits for end-of-file on its piped stdin; another thread launches B
+/// (a launch that succeeds, or fails in one of several ways); the parent closes A's stdin while B's launch is under way
+/// and measures how long A's end-of-file (seen as end-of-file on A's stdout) takes to arrive.
+fn run_eofrace(v: &Value, out: &mut Vec<String>) {
+    use std::io::Read;
+    let vch = format!("{}/vchild", std::env::current_exe().unwrap().parent().unwrap().display());
+    let mut a = Popen::create(
+        &[vch.as_str(), "@script", "R", "x0"],
+        PopenConfig { stdin: Redirection::Pipe, stdout: Redirection::Pipe, ..Default::default() },
+    )
+    .unwrap();
+    let argv_b: Vec<OsString> = v["argv"].as_array().unwrap().iter().map(|x| os(x.as_str().unwrap())).collect();
+    // (an executable somebody still has open for writing cannot be exec'ed: ETXTBSY)
+    let hold = v["hold_write"].as_str().map(|p| fs::OpenOptions::new().write(true).open(os(p)).unwrap());
+    let n_b = v["repeat"].as_u64().unwrap_or(1);
+    let t = std::thread::spawn(move || {
+        let mut started = 0;
+        let mut pids = vec![];
+        for _ in 0..n_b {
+            if let Ok(mut p) = Popen::create(&argv_b, PopenConfig::default()) {
+                started += 1;
+                pids.push(p.pid().unwrap_or(0));
+                let _ = p.wait();
+            }
+        }
+        (started, pids)
+    });
+    std::thread::sleep(std::time::Duration::from_micros(v["delay_us"].as_u64().unwrap_or(0)));
+    let t0 = std::time::Instant::now();
+    drop(a.stdin.take());
+    let mut buf = vec![];
+    let _ = a.stdout.take().unwrap().read_to_end(&mut buf);
+    let lat = t0.elapsed();
+    let _ = a.wait();
+    let (started, mut pids) = t.join().unwrap();
+    drop(hold);
+    pids.push(a.pid().unwrap_or(0));
+    for pid in pids {
+        let _ = fs::remove_file(format!("{}/{}.json", vr(), pid));
+    }
+    out.push(json!({"e":"eoflat","us":lat.as_micros() as u64,"b_started":started}).to_string());
+}
+
 fn run_one(v: &Value, out: &mut Vec<String>) {
     watchdog_arm();
     run_one_inner(v, out);
@@ -342,6 +385,16 @@ fn run_one_body(v: &Value, out: &mut Vec<String>) {
         "base":fd_table()}).to_string());
 
     slog::reset();
+    if v["class"].as_str() == Some("eof-race") {
+        run_eofrace(v, out);
+        let ch = children_state();
+        if ch == "running" {
+            kill_all_children();
+        }
+        out.push(json!({"e":"post","fds":fd_table(),"children":ch}).to_string());
+        out.push(json!({"e":"end"}).to_string());
+        return;
+    }
     // process-wide pre-state
     let old_path = std::env::var_os("PATH");
     if let Some(p) = v["path"].as_str() {
